@@ -235,6 +235,7 @@ class Species(AtomCollection):
 
         if value is None:
             self._atoms = None
+            self._clear_energies_gradient_hessian()
             return
 
         # If the geometry is identical up to rotations/translations then
